@@ -21,6 +21,7 @@ import (
 	"github.com/btcsuite/btcd/wire"
 	"github.com/btcsuite/btcwallet/waddrmgr"
 	"github.com/btcsuite/btcwallet/wallet"
+	"github.com/btcsuite/btcwallet/wallet/txauthor"
 	"github.com/btcsuite/btcwallet/walletdb"
 	_ "github.com/btcsuite/btcwallet/walletdb/bdb"
 
@@ -80,6 +81,8 @@ type world struct {
 	acctKeys    map[string]*hdkeychain.ExtendedKey // scope/account/branch -> branch xpub-capable key
 	violated    bool
 	pendingFail map[string]int
+	derivedIdx  map[string]map[string]uint32
+	derivedN    map[string]uint32
 	// transactions the harness knows pay the wallet or were authored by it
 	funding []*wire.MsgTx
 	sent    []*wire.MsgTx
@@ -96,6 +99,8 @@ func (x *world) fail(sig, format string, a ...any) {
 func newWorld(env *core.Env, p *core.Plan) (*world, error) {
 	x := &world{env: env, p: p, prop: p.Prop, byAddr: map[string]int{}, acctKeys: map[string]*hdkeychain.ExtendedKey{}}
 	r := core.NewRand(core.Mix(p.Seed, 0x77a11e7))
+	txauthor.VerifSeedCPRNG(int64(core.Mix(p.Seed, 0xc9) >> 1)) // overlay probe: change position is a function of the plan
+	simrt.SetMapSeed(core.Mix(p.Seed, 0x3a9) | 1)                  // map iteration order inside btcwallet is a function of the plan
 	x.seed = r.Bytes(32)
 	x.pubPass = []byte("public")
 	x.privPass = []byte("private-" + fmt.Sprint(p.Seed%1000))
@@ -252,29 +257,51 @@ func addrFor(params *chaincfg.Params, scope waddrmgr.KeyScope, branch uint32, pu
 }
 
 // resolve finds (branch, index) of an address of scope/account by independent
-// derivation, searching indices below limit on both branches.
+// derivation, searching indices below limit on both branches. Derived
+// addresses are cached per branch and extended lazily.
 func (x *world) resolve(scope waddrmgr.KeyScope, account uint32, addr btcutil.Address, limit uint32) (branch, index uint32, ok bool) {
-	for br := uint32(0); br < 2; br++ {
-		bk, err := x.branchKey(scope, account, br)
-		if err != nil {
-			return 0, 0, false
+	want := addr.String()
+	if x.derivedIdx == nil {
+		x.derivedIdx = map[string]map[string]uint32{}
+		x.derivedN = map[string]uint32{}
+	}
+	for upto := uint32(16); ; upto *= 4 {
+		if upto > limit {
+			upto = limit
 		}
-		for i := uint32(0); i < limit; i++ {
-			ck, err := bk.DeriveNonStandard(i) // nolint
-			if err != nil {
-				continue
+		for br := uint32(0); br < 2; br++ {
+			k := fmt.Sprintf("%d/%d/%d/%d", scope.Purpose, scope.Coin, account, br)
+			if x.derivedIdx[k] == nil {
+				x.derivedIdx[k] = map[string]uint32{}
 			}
-			pub, err := ck.ECPubKey()
-			if err != nil {
-				continue
+			if x.derivedN[k] < upto {
+				bk, err := x.branchKey(scope, account, br)
+				if err != nil {
+					return 0, 0, false
+				}
+				for i := x.derivedN[k]; i < upto; i++ {
+					ck, err := bk.DeriveNonStandard(i) // nolint
+					if err != nil {
+						continue
+					}
+					pub, err := ck.ECPubKey()
+					if err != nil {
+						continue
+					}
+					if a, err := addrFor(x.params, scope, br, pub); err == nil {
+						x.derivedIdx[k][a.String()] = i
+					}
+				}
+				x.derivedN[k] = upto
 			}
-			a, err := addrFor(x.params, scope, br, pub)
-			if err == nil && a.String() == addr.String() {
+			if i, found := x.derivedIdx[k][want]; found {
 				return br, i, true
 			}
 		}
+		if upto >= limit {
+			return 0, 0, false
+		}
 	}
-	return 0, 0, false
 }
 
 func (x *world) record(addr btcutil.Address, scope waddrmgr.KeyScope, account uint32, via string) (issued, bool) {
